@@ -4,7 +4,9 @@
 (* random order - each logged with its result and the projection of the        *)
 (* object AFTER the call.  TLC accepts the trace iff every call is a step of   *)
 (* TxCheck's object machine: the result is one the property allows and the     *)
-(* object is unchanged.  Progress (how many events matched) is printed so that *)
+(* object is unchanged.  Between calls the recorder edits public fields of     *)
+(* the same object (event "edit", with the fields after it): the verdict of a  *)
+(* later check() must be the one of the fields as they are then.  Progress (how many events matched) is printed so that *)
 (* the harness can name the call at which a rejected trace stopped.            *)
 EXTENDS TxCheck, Json, IOUtils
 
@@ -19,6 +21,7 @@ TInit == /\ tid \in 1..Len(Traces) /\ l = 1
 Call(name) == CASE name = "check" -> Check
                 [] name = "is_coinbase" -> AskCoinbase
                 [] name = "bad_solution_count" -> CountBad
+                [] name = "edit" -> Edit(Ev[l].after)     \* the owner changed public fields; logged result "edited"
 
 TNext == /\ l <= Len(Ev)
          /\ Call(Ev[l].call)
